@@ -42,9 +42,32 @@ def gen_src_codec():
     return p.returncode, p.stdout
 
 
+def gen_src_utils():
+    """C15 (and C01): regenerate lean/RSVerif/Gen/SrcUtils.lean from utils.rs / fwht.rs / tables.rs / engine.rs constants"""
+    out = os.path.join(VERIF, "lean", "RSVerif", "Gen", "SrcUtils.lean")
+    p = subprocess.run([sys.executable, os.path.join(VERIF, "translate", "rs2lean_utils.py"), "/repo", out],
+                       stdout=subprocess.PIPE, stderr=subprocess.STDOUT, text=True)
+    return p.returncode, p.stdout
+
+
+def gen_c01():
+    rc, out = gen_src_codec()
+    if rc != 0:
+        return rc, out
+    rc2, out2 = gen_src_utils()
+    return rc2, out + out2
+
+
+TECH_TRU = ("Lean 4 machine-checked proof; the table initialisers (initialize_exp_log / initialize_log_walsh / initialize_skew), tables::mul, "
+            "add_mod / sub_mod, the sequential in-place fwht and eval_poly are TRANSLATED from the current Rust source on every run "
+            "(translate/rs2lean_utils.py -> Gen/SrcUtils.lean: checked u8/u16/u32/usize arithmetic, arrays with bounds checks, loops with "
+            "explicit state) and proved equal to the transliterated table constructions and the Walsh model, which are proved to give the "
+            "characterised tables; kernels, fft / ifft and the rest on a hand-written model + differential correspondence with the crate")
+
 TECH_TRC = ("Lean 4 machine-checked proof; the codec bodies (HighRate/LowRate encode and decode: chunk loops, usize arithmetic, skew "
             "offsets, erasure marking, multiply / reveal loops) are TRANSLATED from the current Rust source on every run "
             "(translate/rs2lean_codec.py -> Gen/SrcCodec.lean: operation programs) and proved equal to the model's encoders / decoders; "
+            "eval_poly (with the sequential fwht) and formal_derivative are TRANSLATED too (translate/rs2lean_utils.py -> Gen/SrcUtils.lean); "
             "the algebra (field, FFT, Cauchy form, round trip) on a hand-written model + differential correspondence with the crate")
 
 
@@ -231,7 +254,7 @@ PROPS = {
         "generated round trips incl. all subsets of all small configurations + direct round-trip oracle on the implementation up to "
         "full-size configurations.",
         "cases = encode/decode op sequences; distinct = distinct op-sequence text; non-trivial = a decode of >= k shards with a missing original or surplus",
-        pre_lean=gen_src_codec, technique=TECH_TRC,
+        pre_lean=gen_c01, technique=TECH_TRC,
         design_ref="DESIGN.md §6 C01",
     ),
     "C02": P(
@@ -367,6 +390,7 @@ PROPS = {
         "Tie: ALL entries of the six tables vs definitions; mul vs own arithmetic (thorough: all 2^32 pairs per engine); fft vs direct LCH evaluation; "
         "eval_poly vs direct product.",
         "cases = table entries (exhaustive) + primitive calls vs mathematical oracles",
+        pre_lean=gen_src_utils, technique=TECH_TRU,
         design_ref="DESIGN.md §6 C15",
     ),
     "C16": P(
